@@ -515,6 +515,10 @@ func runQueue(c *vlib.Ctx, section string, idx int, r *vlib.Rand, kind string) {
 		c.Inconclusive(caseID, "the background goroutine did not end within the watchdog after cancellation")
 		return
 	}
+	if client.expired() {
+		c.Inconclusive(caseID, "the blocked hand-over was not released within the watchdog")
+		return
+	}
 	c.Count("queue_scenarios_stopped", 1)
 	sc.hs = client.snapshot()
 	sc.describe(r)
